@@ -2,6 +2,27 @@
 """Generates /verif/MANIFEST.json from the table below (single source of truth)."""
 import json, sys
 
+# Extensions made after the seeded-change rounds (DESIGN.md sec. 13.5); appended to the level text.
+ADDENDA = {
+ "C02": " Extended: the BFS systems also carry a budgeted operator crash before request i of a pass and a foreign resourceVersion bump landing before write i of a pass; the interleaving scenarios include warm-ups that archive or delete the oldest revision, so that its release patch races a newer revision's adoption.",
+ "C03": " Extended: a third party may edit the spec of a managed object (budgeted), so that the workload controller catches up and PKO's own revert bumps the generation under a status that was current.",
+ "C04": " Extended: (budgeted) a foreign resourceVersion bump lands just before write i of a teardown pass for every i (delete precondition / update conflict).",
+ "C05": " Extended: sub orphan-system - explicit-state BFS to closure from the rolled-out state of an ObjectSet with every subset of phases delegated, deleted with orphan propagation, with reconcile(ObjectSet / each ObjectSetPhase), the garbage collector (strips owner references, then drops the orphan finalizer) and crashes in any order: no PKO request deletes anything and no rolled-out object disappears.",
+ "C06": " Extended: a complete-takeover chain r1{a} -> r2{a,c} (r1's archival teardown finishes in its first pass) with crashes, and a budgeted foreign write landing before write i of a pass.",
+ "C07": " Extended: the lagging cache hides the fresh ObjectSet from the cached Get as well as from List; a foreign write may land before each write of the deployment's pass; an archived newest ObjectSet does not count as matching the template.",
+ "C08": " Extended: (a) also pruning chains of 3 and 4 revisions whose older members are paused or archived, available or not, and possibly still terminating from an earlier pruning, for revisionHistoryLimit nil/0/1/2; (b) a foreign write may land before each write of a deployment pass.",
+ "C10": " Extended: scenario S8 (complete takeover T1{a} -> T2{a,c}), deletion of ObjectSetPhase objects as drift in the scenarios with delegated phases, and scenario S9 whose template edit comes six rounds after the start, so that earlier disturbances are repaired first and the change meets the repaired state.",
+ "C11": " Extended: the duplicate variants include the same object listed through another served version of its API.",
+ "C12": " Extended: the dynamic cache's own map iterations are routed through the order shim, so that schedules replay deterministically.",
+ "C13": " Extended: packages with a block of 5 files x 3 documents (15 objects in one phase); every range-over-map statement of packagerender, celctx and packagestructure is found by type-checking the current source and routed through the order shim.",
+ "C14": " Extended: the slice-GC system switches among three images (quick: v1 -> v2 -> v3; thorough: any to any), so that a slice can be referenced only by an archived revision that still exists.",
+ "C15": " Extended: the differential scripts include handover to a successor revision with the same / no / full delegation, also after the phase objects were deleted by a third party and re-created; the BFS has a budgeted foreign write before write i of a pass and third-party deletion of phase objects.",
+ "C16": " Extended: a foreign write to the ObjectDeployment may land before each API call of the Package pass (update conflict inside the deployer's retry loop); the image alphabet contains every manifest constraint entry of the grammar {no platform, [Kubernetes], [OpenShift]} x {no version, Kubernetes met/unmet, OpenShift met/unmet} as one entry and as two entries in either order, judged by a reference semantics written from the API documentation.",
+ "C17": " Extended: the probe alphabet contains a failing CEL rule with an empty message.",
+ "C18": " Extended: the target is compared as a whole with a reference rendering (the template has a conditional key and a list that shrinks; source values 1 / 2 / empty); the optional source is listed before or after the required one; every fault kind at every API call of a template pass and a foreign write before each of its writes are explored (budgeted).",
+ "C19": " Extended: CEL expressions (statically bool / non-bool / dynamically typed, compile- and run-time errors) at the condition annotation, named conditions, path conditions and the template cel function with three configs; 11 recursion shapes of helper templates (self, mutual, leaf-then-descend, two descents, count-down, template action, inside range / pipeline) in packages and ObjectTemplates; a Go runtime fatal error of a worker shard (stack overflow) is a violation attributed to the input the shard announced.",
+}
+
 CLAIMED = {
  "C15": dict(
    category="model_checking",
@@ -49,7 +70,7 @@ CLAIMED = {
    category="exploration",
    text="Packages generated from a grammar - every subset of up to 4 of 10 file atoms (static single document, multi-document file with an empty document, .gotmpl using .config, _helpers define + include, file under a conditional path, object with a CEL condition annotation, non-YAML file, nested directory, object with collision-protection / condition-map annotations, sibling path that sorts differently with and without '/') x 2 manifest phase orders x 2 configurations = 1 544 packages - are rendered by the real structural loader, validators, template and object renderer and phase collector (the calls PackageDeployer.Deploy makes). The build overlay routes every `range` over a map in packagerender and packagestructure through an explorer-controlled order: each package is rendered under the canonical order and under every permutation (all n! for n <= 4 keys) at one (quick) / two (thorough) executed range sites: ~104 000 renders quick. Oracle: all renders of a package yield the identical ObjectSetTemplateSpec and FNV hash; a reference renderer that knows the expected documents by construction demands every passing object exactly once, in the phase its annotation names, phases in manifest order, objects in path-then-document order, package labels present, control annotations gone. A second sub enumerates the complete template function map and intersects it with the clock / randomness / environment / network / host-file functions of sprig.",
    design_ref="DESIGN.md §7 C13",
-   note="Trusted: range sites are listed in harness/hooks/vinstr.json (a new map range elsewhere is not permuted); sprig's keys/values return map-iteration order - a template using them without sortAlpha is outside the grammar (recorded in DESIGN.md).",
+   note="Trusted: every map range of the three rendered packages is permuted (found by type-checking at build time); a map range added in another package is not; sprig's keys/values return map-iteration order - a template using them without sortAlpha is outside the grammar (recorded in DESIGN.md).",
    technique="bounded-exhaustive input enumeration with exhaustive map-iteration-order exploration (deviation-bounded) against a reference renderer",
    engine="explore"),
  "C08": dict(
@@ -160,7 +181,7 @@ for p in props:
           "evidence_file": f"/verif/evidence/{i}.json",
           "replay_cmd_template": f"./check {i} --replay {{path}}",
           "engine": c["engine"],
-          "level_claimed": {"category": c["category"], "text": c["text"], "design_ref": c["design_ref"]},
+          "level_claimed": {"category": c["category"], "text": c["text"] + ADDENDA.get(i, ""), "design_ref": c["design_ref"]},
           "level_note": c["note"],
           "technique": c["technique"],
         })
@@ -172,7 +193,7 @@ m = {
  "setup_cmd": "./setup.sh",
  "hooks": {
    "guard": "verif-overlay (go build -overlay generated by bin/vinstr; no build tag needed because /repo is never edited)",
-   "enable": "/verif/check regenerates .work/run-*/overlay/overlay.json from /repo's working tree (sync/go/chan rewrite of listed files + added zz_verif.go accessor files from harness/hooks) and builds the worker with `go build -overlay`",
+   "enable": "/verif/check regenerates .work/run-*/overlay/overlay.json from /repo's working tree (sync/go/chan rewrite of listed files, range-over-map routing in the rendering packages + added zz_verif.go accessor files from harness/hooks) and builds the worker with `go build -overlay`",
    "baseline_off_cmd": "cd /repo && go test -vet=off -count=1 ./... && (cd apis && go test -vet=off -count=1 ./...) && (cd pkg && go test -vet=off -count=1 ./...)",
    "source_commits": [],
    "add_only": True,
